@@ -18,6 +18,7 @@ ap.add_argument("--render", default="plain")
 ap.add_argument("--filefam", default="plain")
 ap.add_argument("--simulate", default=None)
 ap.add_argument("--show", type=int, default=3)
+ap.add_argument("--salt", type=int, default=0)
 ap.add_argument("--timeout", type=int, default=600)
 ap.add_argument("--module", default="MC_Core.tla")
 a = ap.parse_args()
@@ -32,7 +33,7 @@ print("gen: generated=%d distinct=%d depth=%d behaviours=%d errors=%s (%.1fs)" %
     res["generated"], res["distinct"], res["depth"], len(beh), res["errors"][:2], time.time() - t0))
 sel, ntags = engine.select(beh, a.n, a.seed)
 print("selected %d of %d behaviours, %d tag vectors" % (len(sel), len(beh), ntags))
-cfg = dict(consts, render=a.render, filefam=a.filefam)
+cfg = dict(consts, render=a.render, filefam=a.filefam, salt=a.salt)
 t0 = time.time()
 results = engine.replay_many(gitai, [(cfg, b, "r%d" % i) for i, b in enumerate(sel)])
 errs = [e for _, _, e in results if e]
